@@ -1,6 +1,7 @@
 import CattrsModel.Sexp
 import CattrsModel.Core.Wire
 import CattrsModel.Tagged.Model
+import CattrsModel.Tagged.Copy
 /-!
 # Line-protocol operations of the tagged-union model (driver only)
 
@@ -11,6 +12,12 @@ import CattrsModel.Tagged.Model
 * `TAGST <tu> <obj>`            reply `(st <decision> (arg <obj>))`, `<decision>` = `(err)` | `(call <class#> <obj>)`:
                                  which member hook the payload reaches and with which payload; `arg` is the caller's
                                  object after the call
+* `TAGROUTE (ops <op>…) <n>`    a history over converters of one class; `<op>` = `(new)` | `(copy <conv#>)` |
+                                 `(st <conv#> <union#> <hook#>)` (`register_structure_hook(U, f)`) |
+                                 `(un <conv#> <union#> <hook#>)` (`register_unstructure_hook(U, f)`);
+                                 reply `(route (<st> <un> …)…)`: per converter, per union `0..n-1`, what the structure and
+                                 the unstructure dispatcher return: `(hook <hook#>)` | `other` | `keyerror`
+                                 (`Tagged/Copy.lean`: `kRun`, the union registry as a dict object)
 -/
 namespace CattrsModel.Tagged
 open CattrsModel Sexp
@@ -38,6 +45,39 @@ def sexpOfDecision : Decision → Sexp
   | .err => .list [.atom "err"]
   | .call k q => .list [.atom "call", ofNat k, sexpOfObj q]
 
+/-- hook number standing for "whatever the converter does for a union nobody registered" -/
+def routeOther : Nat := 1000000
+
+inductive RouteOp where
+  | new | copy (i : Nat) | st (i U f : Nat) | un (i U f : Nat)
+
+def routeOpOfSexp : Sexp → Option RouteOp
+  | .list [.atom "new"] => some .new
+  | .list [.atom "copy", i] => (atomNat? i).map .copy
+  | .list [.atom "st", i, u, f] => do pure (.st (← atomNat? i) (← atomNat? u) (← atomNat? f))
+  | .list [.atom "un", i, u, f] => do pure (.un (← atomNat? i) (← atomNat? u) (← atomNat? f))
+  | _ => Option.none
+
+/-- structure side: `__init__` installs (among entries that never match a union) the union-registry entry -/
+def routeStOps : List RouteOp → List (KOp Nat Nat)
+  | [] => []
+  | .new :: r => .new :: routeStOps r
+  | .copy i :: r => .copy i :: routeStOps r
+  | .st i u f :: r => .regSt i u f :: routeStOps r
+  | .un _ _ _ :: r => routeStOps r
+
+/-- unstructure side: no registry; `register_unstructure_hook(U, f)` puts `(lambda t: t == U, f)` in front -/
+def routeUnOps : List RouteOp → List (KOp Nat Nat)
+  | [] => []
+  | .new :: r => .new :: routeUnOps r
+  | .copy i :: r => .copy i :: routeUnOps r
+  | .st _ _ _ :: r => routeUnOps r
+  | .un i u f :: r => .regPred i (fun t => t == u) (fun _ => f) :: routeUnOps r
+
+def sexpOfRes : Res Nat → Sexp
+  | .keyError => .atom "keyerror"
+  | .hook f => if f = routeOther then .atom "other" else .list [.atom "hook", ofNat f]
+
 def taggedHandle (op : String) (args : List Sexp) : Option Sexp :=
   match op, args with
   | "TAGUN", [tu, c, o] => do
@@ -52,6 +92,15 @@ def taggedHandle (op : String) (args : List Sexp) : Option Sexp :=
       let p ← objOfSexp p
       let r := tagStRun U true p
       pure (.list [.atom "st", sexpOfDecision r.decision, .list [.atom "arg", sexpOfObj r.callerAfter]])
+  | "TAGROUTE", [.list (.atom "ops" :: ops), n] => do
+      let ops ← ops.mapM routeOpOfSexp
+      let n ← atomNat? n
+      let other : Nat → Nat := fun _ => routeOther
+      let σs := kRun (fun _ => Option.none) [.unionRegistry] other KStore.empty (routeStOps ops)
+      let σu := kRun (fun _ => Option.none) [.pred (fun _ => true) other] other KStore.empty (routeUnOps ops)
+      let rows := (σs.convs.zip σu.convs).map (fun (cs, cu) =>
+        Sexp.list ((List.range n).flatMap (fun t => [sexpOfRes (cs.resolve σs.heap t), sexpOfRes (cu.resolve σu.heap t)])))
+      pure (.list (.atom "route" :: rows))
   | _, _ => Option.none
 
 end CattrsModel.Tagged
